@@ -424,6 +424,9 @@ func runC06Commit(rc *RunCtx, storeError bool) *simkit.Violation {
 		}
 		if vt.Err == nil {
 			w.Probe("commit-succeeded-despite-store-error")
+			if d.VMet.Peek(model.GetArchivePathToFinalDiamond("r1", did)) == nil {
+				return Viol(prop, "commit-success-not-recorded", "Commit", did, "the commit met %s at its write #%d and reported success, but the diamond has no terminal descriptor (a retry commits it again)", kind, cp)
+			}
 			r.Bundles = append(r.Bundles, extra[dia.BundleID])
 			extra = nil
 			errored = false
